@@ -30,7 +30,12 @@ import (
 )
 
 const secret = "s3cret"
-const clientTimeout = 60 * time.Millisecond
+// RADIUS client timeout of the worker: a dropped request costs one timeout.  Generous, because the
+// machine is shared: a reply that the client misses through scheduler starvation would look like
+// an outage the scripted server did not order.  Runs in which that is detected are repeated; the
+// last repetition uses slowTimeout.
+const fastTimeout = 250 * time.Millisecond
+const slowTimeout = 900 * time.Millisecond // below the 1 s retransmission interval of layeh/radius
 
 // ---------------------------------------------------------------- case description (replayable)
 
@@ -141,7 +146,7 @@ func pendOf(id string, q *bng.AcctRequest, retry int) PendInfo {
 		In: q.InputOctets, Out: q.OutputOctets, Cause: q.TerminateCause, Retry: retry}
 }
 
-func workerMain(dir string, port, maxr int) {
+func workerMain(dir string, port, maxr int, clientTimeout time.Duration) {
 	client, err := bng.NewClient(bng.ClientConfig{
 		Servers: []bng.ServerConfig{{Host: "127.0.0.1", Port: port, Secret: secret}},
 		NASID:   "verif", Timeout: clientTimeout, Retries: 1,
@@ -261,6 +266,7 @@ type server struct {
 	hold int // >0: collect this many requests, then answer only the first (by session) that is not down
 	held []heldPkt
 	fence chan struct{}
+	seen  map[[16]byte]bool // authenticators already handled (a retransmission is answered like the original, not logged again)
 }
 
 func newServer() *server {
@@ -268,7 +274,7 @@ func newServer() *server {
 	if err != nil {
 		panic(err)
 	}
-	s := &server{conn: c, down: map[[2]int]bool{}, fence: make(chan struct{}, 4)}
+	s := &server{conn: c, down: map[[2]int]bool{}, fence: make(chan struct{}, 4), seen: map[[16]byte]bool{}}
 	go s.loop()
 	return s
 }
@@ -330,7 +336,15 @@ func (s *server) loop() {
 		}
 		w := decode(p)
 		s.mu.Lock()
+		if ack, dup := s.seen[p.Authenticator]; dup {
+			s.mu.Unlock()
+			if ack {
+				s.reply(p, addr)
+			}
+			continue
+		}
 		if s.hold > 0 {
+			s.seen[p.Authenticator] = false
 			s.held = append(s.held, heldPkt{p, addr, w})
 			if len(s.held) == s.hold {
 				sort.Slice(s.held, func(i, j int) bool { return s.held[i].w.S < s.held[j].w.S })
@@ -349,6 +363,7 @@ func (s *server) loop() {
 			continue
 		}
 		ack := !s.down[[2]int{w.S, w.St}]
+		s.seen[p.Authenticator] = ack
 		s.log = append(s.log, Ev{w, ack})
 		s.mu.Unlock()
 		if ack {
@@ -394,9 +409,9 @@ type worker struct {
 	out *bufio.Scanner
 }
 
-func spawn(dir string, port, maxr int) *worker {
-	c := exec.Command(os.Args[0], "-worker", dir, strconv.Itoa(port), strconv.Itoa(maxr))
-	c.Env = append(os.Environ(), "VERIF_CRASH_AT=")
+func spawn(dir string, port, maxr int, timeout time.Duration) *worker {
+	c := exec.Command(os.Args[0], "-worker", dir, strconv.Itoa(port), strconv.Itoa(maxr), strconv.Itoa(int(timeout.Milliseconds())))
+	c.Env = append(os.Environ(), "VERIF_CRASH_AT=", "GOMAXPROCS=1")
 	stdin, _ := c.StdinPipe()
 	stdout, _ := c.StdoutPipe()
 	c.Stderr = os.Stderr
@@ -533,6 +548,10 @@ type flaky struct{}
 // runOnce executes the case on the real code; it panics with flaky{} when a request the server
 // acknowledged was nevertheless treated as failed by the client (scheduler starvation).
 func runOnce(d Desc, tmp string, strict bool) vh.Case {
+	clientTimeout := fastTimeout
+	if !strict {
+		clientTimeout = slowTimeout
+	}
 	os.RemoveAll(tmp)
 	os.MkdirAll(tmp, 0o755)
 	defer os.RemoveAll(tmp)
@@ -542,7 +561,7 @@ func runOnce(d Desc, tmp string, strict bool) vh.Case {
 	maxr := d.MaxRetries
 	var w *worker
 	boot := func(arm int) (Resp, bool) {
-		w = spawn(tmp, port, maxr)
+		w = spawn(tmp, port, maxr, clientTimeout)
 		c := Cmd{C: "boot"}
 		if arm > 0 {
 			c.ArmName, c.ArmK = "*", arm
@@ -675,7 +694,30 @@ func runOnce(d Desc, tmp string, strict bool) vh.Case {
 					nd++
 				}
 			}
-			if elapsed >= int64(nd+1)*clientTimeout.Milliseconds()-3 {
+			if elapsed >= int64(nd+1)*clientTimeout.Milliseconds()-5 {
+				panic(flaky{})
+			}
+		}
+		// ... and every request the op must transmit must have reached the server (a client that
+		// gives up before transmitting - expired context under starvation - shows as a missing one)
+		if strict && ret == 0 {
+			want := -1
+			switch o.K {
+			case "start", "stop":
+				want = 1
+			case "itick", "gstop":
+				want = len(prevSnap.Sess)
+			case "pq":
+				want = 0
+				if len(prevSnap.Chan) > 0 {
+					want = 1
+				}
+			case "rtick":
+				want = len(prevSnap.Pend)
+			case "restart":
+				want = len(prevDisk.Files)
+			}
+			if want >= 0 && len(evs) < want {
 				panic(flaky{})
 			}
 		}
@@ -815,7 +857,7 @@ func run(d Desc, tmp string) (c vh.Case) {
 					panic(r)
 				}
 			}()
-			c = runOnce(d, tmp, attempt < 4) // last attempt: take the run as it is
+			c = runOnce(d, tmp, attempt < 5) // last attempt: slow timeouts, take the run as it is
 			return true
 		}()
 		if ok {
@@ -860,10 +902,11 @@ Print R.
 `
 
 func main() {
-	if len(os.Args) >= 5 && os.Args[1] == "-worker" {
+	if len(os.Args) >= 6 && os.Args[1] == "-worker" {
 		port, _ := strconv.Atoi(os.Args[3])
 		maxr, _ := strconv.Atoi(os.Args[4])
-		workerMain(os.Args[2], port, maxr)
+		ms, _ := strconv.Atoi(os.Args[5])
+		workerMain(os.Args[2], port, maxr, time.Duration(ms)*time.Millisecond)
 		return
 	}
 	cfg := vh.ParseFlags()
